@@ -20,6 +20,10 @@
     * `evalPars_static`      — parameters whose transitive dependencies are only `t`, `dt` and other such parameters have the same
                                value on every state: evaluating them once before the run ("precompute") or at every index is the same;
     * `simulateN_prefix`, `simulateN_length` — a run to a later end index extends the shorter run (C09 end_extension).
+
+  The loop state is (stocks, current values `d` of the derivative parameters); theorems about one index quantify over every
+  state AND every `d`; those that need the derivative values to respect their limits carry `DWithin s d`, an invariant of the loop
+  (`initD_within`, `nextD_within`).  Skip windows and derivative parameters themselves: C03ClosedExt.lean.
 -/
 import AtomicaModel.Closed
 import AtomicaProofs.Properties.C01Step
@@ -32,68 +36,76 @@ open Atomica Atomica.Engine Atomica.Closed
 
 /-! ## 1. the closed loop is `Engine.process` on its own parameter stream -/
 
-/-- the parameter values the closed loop computes along a trajectory whose first entry is time index `i` -/
-def closedPvs (s : Spec) : Nat → List (Stock × Flow) → List (Nat → Rat)
-  | _, [] => []
-  | i, (x, _) :: rest => pvOf (evalPars s i x) :: closedPvs s (i + 1) rest
+/-- the parameter values the closed loop computes along a trajectory whose first entry is time index `i`, entered with the
+    derivative-parameter values `d` -/
+def closedPvs (s : Spec) : Nat → Vals → List (Stock × Flow) → List (Nat → Rat)
+  | _, _, [] => []
+  | i, d, (x, _) :: rest => pvOf (evalPars s i x d) :: closedPvs s (i + 1) (nextD s i x d) rest
 
-theorem stepClosed_eq {s : Spec} {i : Nat} {x x' : Stock} {fl : Flow} (h : stepClosed s i x = some (fl, x')) :
-    step s.net s.dt (pvOf (evalPars s i x)) x = some (fl, x') := by
+theorem stepClosed_eq {s : Spec} {i : Nat} {x x' : Stock} {d : Vals} {fl : Flow} (h : stepClosed s i x d = some (fl, x')) :
+    step s.net s.dt (pvOf (evalPars s i x d)) x = some (fl, x') := by
   unfold stepClosed at h
   simp only at h
   split at h
   · exact h
   · exact absurd h (by simp)
 
-theorem runClosed_is_runFrom (s : Spec) : ∀ (n i : Nat) (x : Stock) (traj : List (Stock × Flow)),
-    runClosed s i n x = some traj → runFrom s.net s.dt (closedPvs s i traj) x = some traj := by
+/-- one more entry of a defined run: the step that produced it, and the rest of the run from the advanced state -/
+theorem runClosed_succ_some {s : Spec} {i n : Nat} {x : Stock} {d : Vals} {r : List (Stock × Flow)}
+    (h : runClosed s i (n + 1) x d = some r) :
+    ∃ fl x' rest, stepClosed s i x d = some (fl, x') ∧ runClosed s (i + 1) n x' (nextD s i x d) = some rest ∧ r = (x, fl) :: rest := by
+  simp only [runClosed] at h
+  cases hs : stepClosed s i x d with
+  | none => rw [hs] at h; exact absurd h (by simp)
+  | some p =>
+    obtain ⟨fl, x'⟩ := p
+    rw [hs] at h
+    simp only at h
+    cases hr : runClosed s (i + 1) n x' (nextD s i x d) with
+    | none => rw [hr] at h; exact absurd h (by simp)
+    | some rest =>
+      rw [hr] at h
+      simp only [Option.some.injEq] at h
+      exact ⟨fl, x', rest, rfl, hr, h.symm⟩
+
+theorem runClosed_is_runFrom (s : Spec) : ∀ (n i : Nat) (x : Stock) (d : Vals) (traj : List (Stock × Flow)),
+    runClosed s i n x d = some traj → runFrom s.net s.dt (closedPvs s i d traj) x = some traj := by
   intro n
   induction n with
   | zero =>
-    intro i x traj h
+    intro i x d traj h
     simp only [runClosed, Option.some.injEq] at h
     subst h
     simp [closedPvs, runFrom]
   | succ n ih =>
-    intro i x traj h
-    simp only [runClosed] at h
-    cases hs : stepClosed s i x with
-    | none => rw [hs] at h; exact absurd h (by simp)
-    | some p =>
-      obtain ⟨fl, x'⟩ := p
-      rw [hs] at h
-      simp only at h
-      cases hr : runClosed s (i + 1) n x' with
-      | none => rw [hr] at h; exact absurd h (by simp)
-      | some rest =>
-        rw [hr] at h
-        simp only [Option.some.injEq] at h
-        subst h
-        simp only [closedPvs, runFrom, stepClosed_eq hs, ih (i + 1) x' rest hr]
+    intro i x d traj h
+    obtain ⟨fl, x', rest, hs, hr, rfl⟩ := runClosed_succ_some h
+    simp only [closedPvs, runFrom, stepClosed_eq hs, ih (i + 1) x' _ rest hr]
 
 /-- **simulate_is_process** (the task's `simulate_is_runFrom`): a closed-loop run is `Engine.process` (initial flush, then
     `runFrom`) applied to the parameter values the closed loop computes itself. -/
 theorem simulate_is_process (s : Spec) (n : Nat) (traj : List (Stock × Flow)) (h : simulateN s n = some traj) :
-    process s.net s.dt (pvOf (evalPars s 0 s.init)) (closedPvs s 0 traj) s.init = some traj := by
+    process s.net s.dt (pvOf (evalPars s 0 s.init (initD s))) (closedPvs s 0 (initD s) traj) s.init = some traj := by
   unfold simulateN startClosed at h
   simp only at h
   unfold process
   split at h
-  · cases hf : flushAll s.net (pvOf (evalPars s 0 s.init)) s.init s.net.jorder with
+  · cases hf : flushAll s.net (pvOf (evalPars s 0 s.init (initD s))) s.init s.net.jorder with
     | none => rw [hf] at h; exact absurd h (by simp)
     | some x0 =>
       rw [hf] at h
       simp only [Option.bind_some] at h ⊢
-      exact runClosed_is_runFrom s n 0 x0 traj h
+      exact runClosed_is_runFrom s n 0 x0 (initD s) traj h
   · exact absurd h (by simp)
 
 /-- the post-flush start state and the main loop of a defined closed-loop run -/
 theorem simulateN_split {s : Spec} {n : Nat} {traj : List (Stock × Flow)} (h : simulateN s n = some traj) :
-    ∃ x0, flushAll s.net (pvOf (evalPars s 0 s.init)) s.init s.net.jorder = some x0 ∧ runClosed s 0 n x0 = some traj := by
+    ∃ x0, flushAll s.net (pvOf (evalPars s 0 s.init (initD s))) s.init s.net.jorder = some x0 ∧
+      runClosed s 0 n x0 (initD s) = some traj := by
   unfold simulateN startClosed at h
   simp only at h
   split at h
-  · cases hf : flushAll s.net (pvOf (evalPars s 0 s.init)) s.init s.net.jorder with
+  · cases hf : flushAll s.net (pvOf (evalPars s 0 s.init (initD s))) s.init s.net.jorder with
     | none => rw [hf] at h; exact absurd h (by simp)
     | some x0 =>
       rw [hf] at h
@@ -103,10 +115,10 @@ theorem simulateN_split {s : Spec} {n : Nat} {traj : List (Stock × Flow)} (h : 
 /-- **simulate_is_runFrom**: after the start-up flush (state `x0`) the closed-loop trajectory is `Engine.runFrom` applied to the
     parameter-value stream that the closed loop computes itself. -/
 theorem simulate_is_runFrom (s : Spec) (n : Nat) (traj : List (Stock × Flow)) (h : simulateN s n = some traj) :
-    ∃ x0, flushAll s.net (pvOf (evalPars s 0 s.init)) s.init s.net.jorder = some x0 ∧
-      runFrom s.net s.dt (closedPvs s 0 traj) x0 = some traj := by
+    ∃ x0, flushAll s.net (pvOf (evalPars s 0 s.init (initD s))) s.init s.net.jorder = some x0 ∧
+      runFrom s.net s.dt (closedPvs s 0 (initD s) traj) x0 = some traj := by
   obtain ⟨x0, hf, hr⟩ := simulateN_split h
-  exact ⟨x0, hf, runClosed_is_runFrom s n 0 x0 traj hr⟩
+  exact ⟨x0, hf, runClosed_is_runFrom s n 0 x0 (initD s) traj hr⟩
 
 /-- a closed-loop run is a function of the specification: same specification and horizon, same trajectory -/
 theorem simulate_deterministic (s : Spec) (n : Nat) (t1 t2 : List (Stock × Flow))
@@ -147,6 +159,19 @@ theorem clipLim_within (ps : ParSpec) (v : Rat) : Within ps (clipLim ps.lo ps.hi
         simp only [clipLim, clipHi, clipLo]
         split_ifs <;> linarith
 
+/-- `constrain` twice is `constrain` once (also for inconsistent limits `lo > hi`, where every value ends at `hi`) -/
+theorem clipLim_idem (lo hi : Option Rat) (v : Rat) : clipLim lo hi (clipLim lo hi v) = clipLim lo hi v := by
+  cases lo <;> cases hi <;> simp only [clipLim, clipLo, clipHi] <;> split_ifs <;> first | rfl | linarith
+
+/-- the databook value is already clipped: `constrain(ti)` inside a skip window leaves it alone -/
+theorem baseVal_clip (ps : ParSpec) (t : Rat) : (baseVal ps t).map (clipLim ps.lo ps.hi) = baseVal ps t := by
+  unfold baseVal
+  split
+  · rfl
+  · split
+    · simp only [Option.map_some, clipLim_idem]
+    · rfl
+
 theorem baseVal_within (ps : ParSpec) (t : Rat) {v : Rat} (h : baseVal ps t = some v) : Within ps v := by
   unfold baseVal at h
   split at h
@@ -164,9 +189,13 @@ theorem parVal_within (s : Spec) (t : Rat) (x : Stock) (cv pv : Vals) (p : Nat)
   simp only at h
   split at h
   · exact hpv v h
-  · rw [Option.map_eq_some_iff] at h
-    obtain ⟨w, _, rfl⟩ := h
-    exact clipLim_within _ _
+  · split at h
+    · exact hpv v h
+    · split at h
+      · exact baseVal_within _ _ h
+      · rw [Option.map_eq_some_iff] at h
+        obtain ⟨w, _, rfl⟩ := h
+        exact clipLim_within _ _
 
 theorem foldl_within (s : Spec) (t : Rat) (x : Stock) (cv : Vals) : ∀ (l : List Nat) (pv : Vals),
     (∀ p v, pv p = some v → Within (s.pars p) v) →
@@ -186,22 +215,74 @@ theorem foldl_within (s : Spec) (t : Rat) (x : Stock) (cv : Vals) : ∀ (l : Lis
       exact parVal_within s t x cv pv p (h p) hv
     · exact h p v hv
 
-/-- **evalPars_clipped**: every parameter value of every index, on every state, lies within the parameter's limits
-    (data, function and aggregation parameters alike; in particular every value `Engine.step` is given). -/
-theorem evalPars_clipped (s : Spec) (i : Nat) (x : Stock) (p : Nat) {v : Rat} (h : evalPars s i x p = some v) :
+/-- the values of the derivative parameters lie within their limits (part of the loop invariant: true at index 0, `initD_within`,
+    and preserved by every step, `nextD_within`) -/
+def DWithin (s : Spec) (d : Vals) : Prop := ∀ p v, (s.pars p).deriv = true → d p = some v → Within (s.pars p) v
+
+theorem basePars_within (s : Spec) (t : Rat) (d : Vals) (hd : DWithin s d) (p : Nat) (v : Rat) (h : basePars s t d p = some v) :
     Within (s.pars p) v := by
+  unfold basePars at h
+  split at h
+  · rename_i hder; exact hd p v hder h
+  · exact baseVal_within _ _ h
+
+/-- **evalPars_clipped**: every parameter value of every index, on every state, lies within the parameter's limits
+    (data, function, aggregation and derivative parameters alike; in particular every value `Engine.step` is given).
+    `hd`: the derivative values the index was entered with are within limits — an invariant of the loop. -/
+theorem evalPars_clipped (s : Spec) (i : Nat) (x : Stock) (d : Vals) (hd : DWithin s d) (p : Nat) {v : Rat}
+    (h : evalPars s i x d p = some v) : Within (s.pars p) v := by
   unfold evalPars at h
-  exact foldl_within s _ x _ s.porder _ (fun p v hv => baseVal_within _ _ hv) p v h
+  exact foldl_within s _ x _ s.porder _ (basePars_within s _ d hd) p v h
+
+theorem initD_within (s : Spec) : DWithin s (initD s) := by
+  intro p v hder h
+  unfold initD at h
+  simp only [hder, if_true] at h
+  exact baseVal_within _ _ h
+
+theorem advVal_within (s : Spec) (t : Rat) (x : Stock) (cv pv : Vals) (p : Nat) {v : Rat} (h : advVal s t x cv pv p = some v) :
+    Within (s.pars p) v := by
+  unfold advVal at h
+  simp only at h
+  split at h
+  · simp only [Option.some.injEq] at h
+    subst h
+    exact clipLim_within _ _
+  · exact absurd h (by simp)
+
+theorem foldlD_within (s : Spec) (t : Rat) (x : Stock) (cv : Vals) : ∀ (l : List Nat) (st : Vals × Vals), DWithin s st.2 →
+    DWithin s (l.foldl (advStep s t x cv) st).2 := by
+  intro l
+  induction l with
+  | nil => intro st h; exact h
+  | cons a rest ih =>
+    intro st h
+    simp only [List.foldl_cons]
+    apply ih
+    unfold advStep
+    simp only
+    split
+    · intro p v hder hv
+      unfold setAt at hv
+      split at hv
+      · rename_i hpa; subst hpa; exact advVal_within s t x cv st.1 p hv
+      · exact h p v hder hv
+    · exact h
+
+/-- the Euler step keeps the derivative values within their limits (`constrain(ti + 1)`) -/
+theorem nextD_within (s : Spec) (i : Nat) (x : Stock) (d : Vals) (hd : DWithin s d) : DWithin s (nextD s i x d) := by
+  unfold nextD evalParsD
+  exact foldlD_within s _ x _ s.porder _ hd
 
 /-- the value `Engine.step` reads for parameter `p`, when `p` has a lower limit `lo ≥ 0` consistent with its upper limit -/
-theorem pvOf_nonneg (s : Spec) (i : Nat) (x : Stock) (p : Nat) {lo : Rat} (hlo : (s.pars p).lo = some lo) (h0 : 0 ≤ lo)
-    (hcons : ∀ hi, (s.pars p).hi = some hi → lo ≤ hi) : 0 ≤ pvOf (evalPars s i x) p := by
+theorem pvOf_nonneg (s : Spec) (i : Nat) (x : Stock) (d : Vals) (hd : DWithin s d) (p : Nat) {lo : Rat} (hlo : (s.pars p).lo = some lo)
+    (h0 : 0 ≤ lo) (hcons : ∀ hi, (s.pars p).hi = some hi → lo ≤ hi) : 0 ≤ pvOf (evalPars s i x d) p := by
   unfold pvOf
-  cases hv : evalPars s i x p with
+  cases hv : evalPars s i x d p with
   | none => simp
   | some v =>
     simp only [Option.getD_some]
-    exact le_trans h0 ((evalPars_clipped s i x p hv).2 lo hlo hcons)
+    exact le_trans h0 ((evalPars_clipped s i x d hd p hv).2 lo hlo hcons)
 
 theorem allBelow_spec {n : Nat} {f : Nat → Bool} (h : allBelow n f = true) {i : Nat} (hi : i < n) : f i = true := by
   unfold allBelow at h
@@ -209,8 +290,8 @@ theorem allBelow_spec {n : Nat} {f : Nat → Bool} (h : allBelow n f = true) {i 
 
 /-- **closedPvs_propsNonneg**: with clipped proportion parameters the closed loop never feeds a negative junction proportion
     to the engine, on any state and at any index (the hypothesis `PropsNonneg` of the C01/C02 theorems is established, not assumed) -/
-theorem evalPars_propsNonneg (s : Spec) (hc : propsClipped s = true) (i : Nat) (x : Stock) :
-    C02.PropsNonneg s.net (pvOf (evalPars s i x)) := by
+theorem evalPars_propsNonneg (s : Spec) (hc : propsClipped s = true) (i : Nat) (x : Stock) (d : Vals) (hd : DWithin s d) :
+    C02.PropsNonneg s.net (pvOf (evalPars s i x d)) := by
   intro l hl hj
   have h := allBelow_spec hc hl
   simp only [hj, Bool.not_true, Bool.false_or] at h
@@ -227,73 +308,61 @@ theorem evalPars_propsNonneg (s : Spec) (hc : propsClipped s = true) (i : Nat) (
       | none =>
         rw [hlo, hhi] at h
         simp only [decide_eq_true_eq] at h
-        exact pvOf_nonneg s i x p hlo h (by intro hi hh; rw [hhi] at hh; exact absurd hh (by simp))
+        exact pvOf_nonneg s i x d hd p hlo h (by intro hi hh; rw [hhi] at hh; exact absurd hh (by simp))
       | some hi =>
         rw [hlo, hhi] at h
         simp only [Bool.and_eq_true, decide_eq_true_eq] at h
-        exact pvOf_nonneg s i x p hlo h.1 (by intro hi' hh; rw [hhi] at hh; cases hh; exact h.2)
+        exact pvOf_nonneg s i x d hd p hlo h.1 (by intro hi' hh; rw [hhi] at hh; cases hh; exact h.2)
 
-theorem closedPvs_propsNonneg (s : Spec) (hc : propsClipped s = true) : ∀ (traj : List (Stock × Flow)) (i : Nat),
-    ∀ pv, pv ∈ closedPvs s i traj → C02.PropsNonneg s.net pv := by
+theorem closedPvs_propsNonneg (s : Spec) (hc : propsClipped s = true) : ∀ (traj : List (Stock × Flow)) (i : Nat) (d : Vals),
+    DWithin s d → ∀ pv, pv ∈ closedPvs s i d traj → C02.PropsNonneg s.net pv := by
   intro traj
   induction traj with
-  | nil => intro i pv h; simp [closedPvs] at h
+  | nil => intro i d _ pv h; simp [closedPvs] at h
   | cons e rest ih =>
-    intro i pv h
+    intro i d hd pv h
     obtain ⟨x, fl⟩ := e
     simp only [closedPvs, List.mem_cons] at h
     rcases h with rfl | h
-    · exact evalPars_propsNonneg s hc i x
-    · exact ih (i + 1) pv h
+    · exact evalPars_propsNonneg s hc i x d hd
+    · exact ih (i + 1) _ (nextD_within s i x d hd) pv h
 
 /-! ## 3. the L1 theorems transfer to closed-loop runs -/
 
 /-- **closed_total** (C01 along every closed-loop run): after any number of indices the number of people equals the number after
     the initial flush plus all recorded source outflow. -/
 theorem closed_total (s : Spec) (hwf : wfCheck s.net = true) (hgr : wfGroupRows s.net = true) (hres : resCheck s.net = true)
-    (hdt : 0 ≤ s.dt) (hc : propsClipped s = true) {n : Nat} {x0 : Stock} {traj : List (Stock × Flow)}
-    (hx : C02.StockNonneg s.net x0) (hr : runClosed s 0 n x0 = some traj) :
+    (hdt : 0 ≤ s.dt) (hc : propsClipped s = true) {n : Nat} {x0 : Stock} {d : Vals} {traj : List (Stock × Flow)}
+    (hx : C02.StockNonneg s.net x0) (hd : DWithin s d) (hr : runClosed s 0 n x0 d = some traj) :
     C01.grandTotal s.net (C01.lastStock s.net x0 traj) = C01.grandTotal s.net x0 + C01.trajSourceOut s.net traj :=
-  C01.run_total hwf hgr hres hdt (closedPvs s 0 traj) (closedPvs_propsNonneg s hc traj 0) hx
-    (runClosed_is_runFrom s n 0 x0 traj hr)
+  C01.run_total hwf hgr hres hdt (closedPvs s 0 d traj) (closedPvs_propsNonneg s hc traj 0 d hd) hx
+    (runClosed_is_runFrom s n 0 x0 d traj hr)
 
 /-- one more closed-loop step from any reachable non-negative state: flows ≥ 0 and the next state ≥ 0 -/
 theorem stepClosed_nonneg (s : Spec) (hwf : wfCheck s.net = true) (hdt : 0 ≤ s.dt) (hc : propsClipped s = true)
-    {i : Nat} {x x' : Stock} {fl : Flow} (hx : C02.StockNonneg s.net x) (h : stepClosed s i x = some (fl, x')) :
-    C02.FlowNonneg s.net fl ∧ C02.StockNonneg s.net x' :=
-  C02.step_nonneg hwf hdt (evalPars_propsNonneg s hc i x) hx (stepClosed_eq h)
+    {i : Nat} {x x' : Stock} {d : Vals} {fl : Flow} (hx : C02.StockNonneg s.net x) (hd : DWithin s d)
+    (h : stepClosed s i x d = some (fl, x')) : C02.FlowNonneg s.net fl ∧ C02.StockNonneg s.net x' :=
+  C02.step_nonneg hwf hdt (evalPars_propsNonneg s hc i x d hd) hx (stepClosed_eq h)
 
 /-- **closed_nonneg** (C02 along every closed-loop run): every stock and every flow of every index is non-negative -/
 theorem closed_nonneg (s : Spec) (hwf : wfCheck s.net = true) (hdt : 0 ≤ s.dt) (hc : propsClipped s = true) :
-    ∀ (n i : Nat) (x0 : Stock) (traj : List (Stock × Flow)), C02.StockNonneg s.net x0 → runClosed s i n x0 = some traj →
-    ∀ e, e ∈ traj → C02.StockNonneg s.net e.1 ∧ C02.FlowNonneg s.net e.2 := by
+    ∀ (n i : Nat) (x0 : Stock) (d : Vals) (traj : List (Stock × Flow)), C02.StockNonneg s.net x0 → DWithin s d →
+    runClosed s i n x0 d = some traj → ∀ e, e ∈ traj → C02.StockNonneg s.net e.1 ∧ C02.FlowNonneg s.net e.2 := by
   intro n
   induction n with
   | zero =>
-    intro i x0 traj _ h e he
+    intro i x0 d traj _ _ h e he
     simp only [runClosed, Option.some.injEq] at h
     subst h
     simp at he
   | succ n ih =>
-    intro i x0 traj hx h e he
-    simp only [runClosed] at h
-    cases hs : stepClosed s i x0 with
-    | none => rw [hs] at h; exact absurd h (by simp)
-    | some p =>
-      obtain ⟨fl, x'⟩ := p
-      rw [hs] at h
-      simp only at h
-      cases hr : runClosed s (i + 1) n x' with
-      | none => rw [hr] at h; exact absurd h (by simp)
-      | some rest =>
-        rw [hr] at h
-        simp only [Option.some.injEq] at h
-        subst h
-        have hstep := stepClosed_nonneg s hwf hdt hc hx hs
-        simp only [List.mem_cons] at he
-        rcases he with rfl | he
-        · exact ⟨hx, hstep.1⟩
-        · exact ih (i + 1) x' rest hstep.2 hr e he
+    intro i x0 d traj hx hd h e he
+    obtain ⟨fl, x', rest, hs, hr, rfl⟩ := runClosed_succ_some h
+    have hstep := stepClosed_nonneg s hwf hdt hc hx hd hs
+    simp only [List.mem_cons] at he
+    rcases he with rfl | he
+    · exact ⟨hx, hstep.1⟩
+    · exact ih (i + 1) x' _ rest hstep.2 (nextD_within s i x0 d hd) hr e he
 
 /-- **closed_jempty** (C04/C10): in a closed-loop run from the specification every junction is empty at every index -/
 theorem closed_jempty (s : Spec) (hwf : wfCheck s.net = true) {n : Nat} {traj : List (Stock × Flow)}
@@ -309,14 +378,33 @@ theorem parVal_data {s : Spec} {t : Rat} {x : Stock} {cv pv : Vals} {p : Nat} (h
   simp only
   split
   · rfl
-  · rename_i hk
-    split at h
-    · rename_i hk'; exact absurd hk' (hk)
-    · exact absurd h (by simp)
+  · split
+    · rfl
+    · rename_i hk
+      split at h
+      · rename_i hk'; exact absurd hk' (hk)
+      · exact absurd h (by simp)
 
-/-- evaluating the parameters of a list leaves alone every parameter that is not in the list, and every data parameter -/
+/-- a derivative parameter is not re-evaluated inside an index either -/
+theorem parVal_deriv {s : Spec} {t : Rat} {x : Stock} {cv pv : Vals} {p : Nat} (h : (s.pars p).deriv = true) :
+    parVal s t x cv pv p = pv p := by
+  unfold parVal
+  simp only [h, if_true]
+
+theorem parVal_fixed {s : Spec} {t : Rat} {x : Stock} {cv pv : Vals} {p : Nat} (h : isFixed (s.pars p) = true) :
+    parVal s t x cv pv p = pv p := by
+  unfold isFixed at h
+  simp only [Bool.or_eq_true] at h
+  rcases h with h | h
+  · exact parVal_deriv h
+  · exact parVal_data h
+
+theorem isFixed_of_isData {ps : ParSpec} (h : isData ps = true) : isFixed ps = true := by
+  unfold isFixed; simp [h]
+
+/-- evaluating the parameters of a list leaves alone every parameter that is not in the list, and every data / derivative parameter -/
 theorem foldl_other (s : Spec) (t : Rat) (x : Stock) (cv : Vals) : ∀ (l : List Nat) (pv : Vals) (q : Nat),
-    (q ∉ l ∨ isData (s.pars q) = true) → (l.foldl (parStep s t x cv) pv) q = pv q := by
+    (q ∉ l ∨ isFixed (s.pars q) = true) → (l.foldl (parStep s t x cv) pv) q = pv q := by
   intro l
   induction l with
   | nil => intro pv q _; rfl
@@ -333,7 +421,7 @@ theorem foldl_other (s : Spec) (t : Rat) (x : Stock) (cv : Vals) : ∀ (l : List
       subst hqa
       rcases hq with hq | hq
       · exact absurd (List.mem_cons_self) hq
-      · exact parVal_data hq
+      · exact parVal_fixed hq
     · rfl
 
 theorem mem_parRefsOf {q : Nat} : ∀ {refs : List Ref}, Ref.par q ∈ refs → q ∈ parRefsOf refs := by
@@ -433,12 +521,14 @@ theorem rawVal_congr (f g : Ref → Option Rat) (t : Rat) (k : ParKind) (h : ∀
     rw [aggNum_congr f g t terms h, aggDen_congr f g t terms h]
 
 /-- `parVal` of a function parameter reads the valuation only at the parameters its function mentions -/
-theorem parVal_congr (s : Spec) (t : Rat) (x : Stock) (cv pv pv' : Vals) (p : Nat) (hd : isData (s.pars p) = false)
+theorem parVal_congr (s : Spec) (t : Rat) (x : Stock) (cv pv pv' : Vals) (p : Nat) (hd : isFixed (s.pars p) = false)
     (h : ∀ q, q ∈ parRefsOf (kindRefs (s.pars p).kind) → pv q = pv' q) :
     parVal s t x cv pv p = parVal s t x cv pv' p := by
   unfold parVal
   simp only
-  unfold isData at hd
+  unfold isFixed isData at hd
+  simp only [Bool.or_eq_false_iff] at hd
+  simp only [hd.1, Bool.false_eq_true, if_false]
   split
   · rename_i hk; rw [hk] at hd; simp at hd
   · rw [rawVal_congr _ _ t _ (refVal_congr s.net x cv pv pv' t s.dt _ h)]
@@ -476,9 +566,9 @@ theorem foldl_fixpoint (s : Spec) (t : Rat) (x : Stock) (cv : Vals) : ∀ (l don
     have ha_rest : a ∉ rest := okOrder_done_not_mem s rest (a :: done) hrest a (List.mem_cons_self)
     by_cases hpa : p = a
     · subst hpa
-      by_cases hd : isData (s.pars p) = true
-      · rw [parVal_data hd]
-      · have hd' : isData (s.pars p) = false := by simpa using hd
+      by_cases hd : isFixed (s.pars p) = true
+      · rw [parVal_fixed hd]
+      · have hd' : isFixed (s.pars p) = false := by simpa using hd
         -- the value assigned at `p` survives the rest of the list …
         rw [foldl_other s t x cv rest _ p (Or.inl ha_rest)]
         have hself : parStep s t x cv pv0 p p = parVal s t x cv pv0 p := by simp [parStep, setAt]
@@ -505,27 +595,39 @@ theorem foldl_fixpoint (s : Spec) (t : Rat) (x : Stock) (cv : Vals) : ∀ (l don
 /-- **evalPars_fixpoint**: when the execution order is topological for the dependency relation (`depsBefore`), the value of every
     parameter in the order equals its rule — `clip(scale · f(dependencies))`, resp. the aggregation — applied to the values of
     the SAME index: no parameter reads a stale or not-yet-computed value. -/
-theorem evalPars_fixpoint (s : Spec) (hd : depsBefore s = true) (i : Nat) (x : Stock) (p : Nat) (hp : p ∈ s.porder) :
-    evalPars s i x p = parVal s (Grid.point s.start s.dt i) x (evalCharacs s x) (evalPars s i x) p := by
+theorem evalPars_fixpoint (s : Spec) (hd : depsBefore s = true) (i : Nat) (x : Stock) (d : Vals) (p : Nat) (hp : p ∈ s.porder) :
+    evalPars s i x d p = parVal s (Grid.point s.start s.dt i) x (evalCharacs s x) (evalPars s i x d) p := by
   unfold evalPars
   exact foldl_fixpoint s _ x _ s.porder [] _ hd p hp
 
-/-- the same, spelled out for a function parameter -/
-theorem evalPars_fixpoint_fn (s : Spec) (hd : depsBefore s = true) (i : Nat) (x : Stock) (p : Nat) (hp : p ∈ s.porder)
-    {e : Expr.Py} {deps : List (String × List Ref)} (hk : (s.pars p).kind = .fn e deps) :
-    evalPars s i x p =
-      (evalFn e (envOf (refVal s.net x (evalCharacs s x) (evalPars s i x) (Grid.point s.start s.dt i) s.dt) deps)).map
+/-- the same, spelled out for a function parameter (outside its skip window; inside it: `closed_skip_uses_data`) -/
+theorem evalPars_fixpoint_fn (s : Spec) (hd : depsBefore s = true) (i : Nat) (x : Stock) (d : Vals) (p : Nat) (hp : p ∈ s.porder)
+    {e : Expr.Py} {deps : List (String × List Ref)} (hk : (s.pars p).kind = .fn e deps)
+    (hs : skipped (s.pars p) (Grid.point s.start s.dt i) = false) (hnd : (s.pars p).deriv = false) :
+    evalPars s i x d p =
+      (evalFn e (envOf (refVal s.net x (evalCharacs s x) (evalPars s i x d) (Grid.point s.start s.dt i) s.dt) deps)).map
         (fun v => clipLim (s.pars p).lo (s.pars p).hi ((s.pars p).scale * v)) := by
-  rw [evalPars_fixpoint s hd i x p hp]
+  rw [evalPars_fixpoint s hd i x d p hp]
   unfold parVal
-  simp only [hk, rawVal]
+  simp only [hk, rawVal, hs, hnd, Bool.false_eq_true, if_false]
 
-/-- a parameter that is not in the order keeps its databook value `clip(interp(data, t) · scale)` -/
-theorem evalPars_data (s : Spec) (i : Nat) (x : Stock) (p : Nat) (hp : p ∉ s.porder ∨ isData (s.pars p) = true) :
-    evalPars s i x p = baseVal (s.pars p) (Grid.point s.start s.dt i) := by
+/-- a data parameter, and one that is not in the order, keeps its databook value `clip(interp(data, t) · scale)`
+    (`hnd`: it is not a derivative parameter — those keep the value the previous step gave them, `evalPars_deriv`) -/
+theorem evalPars_data (s : Spec) (i : Nat) (x : Stock) (d : Vals) (p : Nat) (hp : p ∉ s.porder ∨ isData (s.pars p) = true)
+    (hnd : (s.pars p).deriv = false) : evalPars s i x d p = baseVal (s.pars p) (Grid.point s.start s.dt i) := by
   unfold evalPars
-  rw [foldl_other s _ x _ s.porder _ p hp]
-  rfl
+  rw [foldl_other s _ x _ s.porder _ p (hp.imp id isFixed_of_isData)]
+  unfold basePars
+  simp only [hnd, Bool.false_eq_true, if_false]
+
+/-- at every index, on every state, a derivative parameter has the value the loop state carries for it: nothing inside the index
+    changes it (every reader of index `i`, `update_links` included, sees `value[i]`) -/
+theorem evalPars_deriv (s : Spec) (i : Nat) (x : Stock) (d : Vals) (p : Nat) (hder : (s.pars p).deriv = true) :
+    evalPars s i x d p = d p := by
+  unfold evalPars
+  rw [foldl_other s _ x _ s.porder _ p (Or.inr (by unfold isFixed; simp [hder]))]
+  unfold basePars
+  simp only [hder, if_true]
 
 /-! ## 5. "precompute" = evaluate at every index: state-independent parameters -/
 
@@ -555,81 +657,65 @@ theorem foldl_static (s : Spec) (t : Rat) (x x' : Stock) (cv cv' : Vals) (S : Li
       · by_cases hd : isData (s.pars q') = true
         · rw [parVal_data hd, parVal_data hd]; exact h q' hq'
         · have hd' : isData (s.pars q') = false := by simpa using hd
-          unfold parVal
-          simp only
-          unfold isData at hd'
-          split
-          · rename_i hk; rw [hk] at hd'; simp at hd'
-          · rw [rawVal_congr _ (refVal s.net x' cv' pv' t s.dt) t _ (by
-              intro r hr
-              rcases hrefs r hr with rfl | rfl | ⟨q2, rfl, hq2⟩
-              · rfl
-              · rfl
-              · exact h q2 hq2)]
+          by_cases hder : (s.pars q').deriv = true
+          · rw [parVal_deriv hder, parVal_deriv hder]; exact h q' hq'
+          · have hder' : (s.pars q').deriv = false := by simpa using hder
+            unfold parVal
+            simp only [hder', Bool.false_eq_true, if_false]
+            unfold isData at hd'
+            split
+            · rename_i hk; rw [hk] at hd'; simp at hd'
+            · rw [rawVal_congr _ (refVal s.net x' cv' pv' t s.dt) t _ (by
+                intro r hr
+                rcases hrefs r hr with rfl | rfl | ⟨q2, rfl, hq2⟩
+                · rfl
+                · rfl
+                · exact h q2 hq2)]
     · exact h q' hq'
 
 /-- **evalPars_static**: on a dependency-closed set of parameters that mention no compartment, characteristic or flow, the values
     of an index do not depend on the state — computing them once before the run (the code's "precompute") gives the values the
     closed loop computes at every index. -/
-theorem evalPars_static (s : Spec) (S : List Nat) (hS : StaticSet s S) (i : Nat) (x x' : Stock) (q : Nat) (hq : q ∈ S) :
-    evalPars s i x q = evalPars s i x' q := by
+theorem evalPars_static (s : Spec) (S : List Nat) (hS : StaticSet s S) (i : Nat) (x x' : Stock) (d d' : Vals)
+    (hdd : ∀ q, q ∈ S → (s.pars q).deriv = true → d q = d' q) (q : Nat) (hq : q ∈ S) :
+    evalPars s i x d q = evalPars s i x' d' q := by
   unfold evalPars
-  exact foldl_static s _ x x' _ _ S hS s.porder _ _ (fun _ _ => rfl) q hq
+  apply foldl_static s _ x x' _ _ S hS s.porder _ _ _ q hq
+  intro q' hq'
+  unfold basePars
+  split
+  · rename_i hder; exact hdd q' hq' hder
+  · rfl
 
 /-! ## 6. a later end index extends the shorter run (C09 end_extension) -/
 
-theorem runClosed_length (s : Spec) : ∀ (n i : Nat) (x : Stock) (traj : List (Stock × Flow)),
-    runClosed s i n x = some traj → traj.length = n := by
+theorem runClosed_length (s : Spec) : ∀ (n i : Nat) (x : Stock) (d : Vals) (traj : List (Stock × Flow)),
+    runClosed s i n x d = some traj → traj.length = n := by
   intro n
   induction n with
-  | zero => intro i x traj h; simp only [runClosed, Option.some.injEq] at h; subst h; rfl
+  | zero => intro i x d traj h; simp only [runClosed, Option.some.injEq] at h; subst h; rfl
   | succ n ih =>
-    intro i x traj h
-    simp only [runClosed] at h
-    cases hs : stepClosed s i x with
-    | none => rw [hs] at h; exact absurd h (by simp)
-    | some p =>
-      obtain ⟨fl, x'⟩ := p
-      rw [hs] at h
-      simp only at h
-      cases hr : runClosed s (i + 1) n x' with
-      | none => rw [hr] at h; exact absurd h (by simp)
-      | some rest =>
-        rw [hr] at h
-        simp only [Option.some.injEq] at h
-        subst h
-        simp [ih (i + 1) x' rest hr]
+    intro i x d traj h
+    obtain ⟨fl, x', rest, _, hr, rfl⟩ := runClosed_succ_some h
+    simp [ih (i + 1) x' _ rest hr]
 
-theorem runClosed_prefix (s : Spec) : ∀ (n m i : Nat) (x : Stock) (traj : List (Stock × Flow)), m ≤ n →
-    runClosed s i n x = some traj → runClosed s i m x = some (traj.take m) := by
+theorem runClosed_prefix (s : Spec) : ∀ (n m i : Nat) (x : Stock) (d : Vals) (traj : List (Stock × Flow)), m ≤ n →
+    runClosed s i n x d = some traj → runClosed s i m x d = some (traj.take m) := by
   intro n
   induction n with
   | zero =>
-    intro m i x traj hm h
+    intro m i x d traj hm h
     have : m = 0 := by omega
     subst this
     simp only [runClosed, Option.some.injEq] at h ⊢
     subst h; rfl
   | succ n ih =>
-    intro m i x traj hm h
+    intro m i x d traj hm h
     cases m with
     | zero => simp [runClosed]
     | succ m =>
-      simp only [runClosed] at h ⊢
-      cases hs : stepClosed s i x with
-      | none => rw [hs] at h; exact absurd h (by simp)
-      | some p =>
-        obtain ⟨fl, x'⟩ := p
-        rw [hs] at h
-        simp only at h ⊢
-        cases hr : runClosed s (i + 1) n x' with
-        | none => rw [hr] at h; exact absurd h (by simp)
-        | some rest =>
-          rw [hr] at h
-          simp only [Option.some.injEq] at h
-          subst h
-          rw [ih m (i + 1) x' rest (by omega) hr]
-          simp
+      obtain ⟨fl, x', rest, hs, hr, rfl⟩ := runClosed_succ_some h
+      simp only [runClosed, hs, ih m (i + 1) x' _ rest (by omega) hr, List.take_succ_cons]
 
 /-- **simulateN_prefix** (end_extension): the run to `m ≤ n` points is the first `m` entries of the run to `n` points -/
 theorem simulateN_prefix (s : Spec) {n m : Nat} (hm : m ≤ n) {traj : List (Stock × Flow)} (h : simulateN s n = some traj) :
@@ -648,11 +734,11 @@ theorem simulateN_prefix (s : Spec) {n m : Nat} (hm : m ≤ n) {traj : List (Sto
   unfold simulateN
   rw [this]
   simp only [Option.bind_some]
-  exact runClosed_prefix s n m 0 x0 traj hm hr
+  exact runClosed_prefix s n m 0 x0 (initD s) traj hm hr
 
 theorem simulateN_length (s : Spec) {n : Nat} {traj : List (Stock × Flow)} (h : simulateN s n = some traj) : traj.length = n := by
   obtain ⟨x0, _, hr⟩ := simulateN_split h
-  exact runClosed_length s n 0 x0 traj hr
+  exact runClosed_length s n 0 x0 (initD s) traj hr
 
 /-- an undefined shorter run makes every longer run undefined (the driver's `nan` at the first undefined index) -/
 theorem simulateN_none_mono (s : Spec) {n m : Nat} (hm : m ≤ n) (h : simulateN s m = none) : simulateN s n = none := by
@@ -815,17 +901,18 @@ example : wfSpec exSpec = true := by decide +kernel
 example : propsClipped exSpec = true ∧ depsBefore exSpec = true ∧ okCOrder exSpec [] exSpec.corder = true := by decide +kernel
 /-- parameter values of index 0 on the initial stocks: the function parameter (1/10 · 1/100 · 100 / (2/3 + 1) = 3/50), the
     interpolated, scaled data parameter (1/5 · 3/2 = 3/10), the proportions, and the time parameter ((2000 - 1999)/100) -/
-example : (List.range 5).map (evalPars exSpec 0 exSpec.init) = [some (3/50), some (3/10), some (1/4), some (3/4), some (1/100)] := by
+example : (List.range 5).map (evalPars exSpec 0 exSpec.init (initD exSpec)) = [some (3/50), some (3/10), some (1/4), some (3/4), some (1/100)] := by
   decide +kernel
 /-- at index 1 (t = 2000.5) the data parameter is interpolated and then clipped to its upper limit: min(0.3 · 1.5, 0.5) = 9/20 -/
-example : evalPars exSpec 1 exSpec.init 1 = some (9/20) := by decide +kernel
+example : evalPars exSpec 1 exSpec.init (initD exSpec) 1 = some (9/20) := by decide +kernel
 example : (simulateN exSpec 1).isSome = true := by decide +kernel
 /-- the junction content (10 people) is flushed 1:3 before the first step, so 102.5 people start in compartment 0 -/
 example : (simulateN exSpec 1).map (fun tr => tr.map (fun e => e.1 0 0)) = some [205/2] := by decide +kernel
 /-- with the non-topological order `depsBefore` fails and the conclusion of `evalPars_fixpoint` is false: the function
     parameter was computed from a value of `a` that does not exist yet -/
 example : depsBefore exBad = false ∧
-    evalPars exBad 0 exBad.init 0 ≠ parVal exBad (Grid.point exBad.start exBad.dt 0) exBad.init (evalCharacs exBad exBad.init) (evalPars exBad 0 exBad.init) 0 := by
+    evalPars exBad 0 exBad.init (initD exBad) 0 ≠
+      parVal exBad (Grid.point exBad.start exBad.dt 0) exBad.init (evalCharacs exBad exBad.init) (evalPars exBad 0 exBad.init (initD exBad)) 0 := by
   decide +kernel
 example : StaticSet exSpec [4, 1, 2, 3] := by
   intro p hp
